@@ -101,15 +101,15 @@ def cases(tier, seed):
   # runs that diverge (small gamma = large steps, on noisy triplets): the objective
   # is lowest early, so anything that evaluates outside the documented
   # checkpoints changes the selected weights
-  for i in range(24 if q else 400):
+  for i in range(72 if q else 800):
     r = rng_for('c15-diverge', seed, i)
     d = int(r.randint(2, 5))
     out.append({'est': 'SCML',
                 'params': {'basis': '@basis', 'n_basis': 2 * d,
                            'beta': 1e-5, 'gamma': [5e-3, 1e-3, 1e-4][i % 3],
                            'batch_size': [5, 10][i % 2], 'max_iter': 100,
-                           'output_iter': [50, 7, 100][(i // 2) % 3],
-                           'verbose': bool(i % 4 != 3)},
+                           'output_iter': [50, 7, 100, 33][(i // 2) % 4],
+                           'verbose': bool(i % 6 != 5)},
                 'ds': {'seed': int(r.randint(2**31 - 1)), 'd': d,
                        'classes': 2, 'variant': 'plain', 'nmax': 40},
                 'noisy_triplets': True,
